@@ -741,7 +741,9 @@ func replayAll(prog *interp.Program, pool *interp.Pool, repo, vd, prop string, c
 	for _, c := range cases {
 		// assertions over ghost state (lock discipline) have no native
 		// observable: they replay in the interpreter only
-		if prog.Harnesses[c.Harness].Native && !strings.Contains(c.Expect, "(ghost)") {
+		// (a fatal outcome - stack overflow, non-termination - would take the
+		// whole native test process down with it)
+		if prog.Harnesses[c.Harness].Native && !strings.Contains(c.Expect, "(ghost)") && c.Kind != "fatal" {
 			native = append(native, c)
 		}
 	}
